@@ -147,6 +147,8 @@ func say(format string, a ...any) {
 }
 
 // inlineStore opens the store in a directory on an inline bus.
+var inlineRunDone chan struct{}
+
 func inlineStore(dir string) (*store.Store, *nats.Conn, *nats.World, error) {
 	w := nats.NewWorld()
 	w.Inline = true
@@ -159,7 +161,9 @@ func inlineStore(dir string) (*store.Store, *nats.Conn, *nats.World, error) {
 	if err != nil {
 		return nil, nil, w, err
 	}
-	go func() { _ = st.Run() }()
+	done := make(chan struct{})
+	inlineRunDone = done
+	go func() { _ = st.Run(); close(done) }()
 	// Run only subscribes (no file I/O) and then blocks; wait until the bus knows the subscriptions
 	for i := 0; i < 2000; i++ {
 		hc, _ := nats.Connect("nats://c:4222", nats.Name("probe"))
@@ -412,8 +416,14 @@ func TestCrashVerify(t *testing.T) {
 		}
 	}
 	// a second reopen changes nothing
+	firstDone := inlineRunDone
 	st.Stop(nil)
-	time.Sleep(20 * time.Millisecond)
+	select { // Run closes the database file before it returns
+	case <-firstDone:
+	case <-time.After(30 * time.Second):
+		fail("stop", "Store.Run did not return within 30 s of Stop after the recovery")
+		return
+	}
 	hc.Close()
 	_, hc2, _, err := inlineStore(dir)
 	if err != nil {
